@@ -1109,7 +1109,8 @@ mod repr {
 
     fn to_f32_small(dword: DoubleWord) -> Approximation<f32, Sign> {
         let f = dword as f32;
-        if f.is_infinite() {
+        if f.is_infinite() || f >= (DoubleWord::MAX / 2 + 1) as f32 * 2.0 {
+            // overflow, or rounded up to 2^DWORD_BITS (the cast back would saturate)
             return Inexact(f, Sign::Positive);
         }
 
@@ -1124,6 +1125,10 @@ mod repr {
     fn to_f64_small(dword: DoubleWord) -> Approximation<f64, Sign> {
         const_assert!((DoubleWord::MAX as f64) < f64::MAX);
         let f = dword as f64;
+        if f >= (DoubleWord::MAX / 2 + 1) as f64 * 2.0 {
+            // rounded up to 2^DWORD_BITS, the cast back would saturate
+            return Inexact(f, Sign::Positive);
+        }
         let back = f as DoubleWord;
 
         match back.partial_cmp(&dword).unwrap() {
